@@ -42,11 +42,11 @@ CONFIGS = {
 
 
 def bounds(tier):
-    return dict(tier=tier, schemas=len(_schemas(tier)), owner_configs=list(CONFIGS), owner_configs_at_depth_2=["default", "all_three", "by_alias"] if tier == "thorough" else "n/a (quick has depth <= 1)", dialects=2, all_refs=2, ref_prefixes=[None, "#/x", "#/x/"],
+    return dict(tier=tier, schemas=len(_schemas(tier)), owner_configs=list(CONFIGS), owner_configs_at_depth_2=["default (one schema in eight)"] if tier == "thorough" else "n/a (quick has depth <= 1)", dialects=2, all_refs=2, ref_prefixes=[None, "#/x", "#/x/"],
                 with_definitions=[True, False], builder_history_depth=5, shared_context_history_depth=3,
                 shared_contexts=list(CFam.CONTEXTS), per_call_overrides=list(CModel.OVERRIDES),
-                combinations="all 14 meaningful (dialect, all_refs, ref_prefix, with_definitions) in thorough; 6 covering every value of each in quick",
-                defaults_per_schema=2 if tier == "quick" else 4)
+                combinations="all 14 meaningful (dialect, all_refs, ref_prefix, with_definitions) for the default owner configuration in thorough; 6 covering every value of each elsewhere",
+                defaults_per_schema="2; 4 for the default owner configuration in thorough")
 
 
 def _schemas(tier):
@@ -63,9 +63,20 @@ QUICK_COMBOS = {("DRAFT_2020_12", False, None, True), ("DRAFT_2020_12", True, "#
 
 
 def units(tier):
-    # thorough: every owner configuration for the depth <= 1 schemas, three of them (default / all_three / by_alias) for depth 2
-    out = [("total", d, c, tier) for d in _schemas(tier) for c in CONFIGS
-           if tier == "quick" or space.depth(d) <= 1 or c in ("default", "all_three", "by_alias")]
+    # quick: a third of the depth <= 1 schemas x every owner configuration x 6 option combinations x 2 defaults.
+    # thorough: EVERY depth <= 1 schema x every owner configuration (the default configuration under all 14 option
+    # combinations and 4 defaults, the other eleven under the quick procedure), and one depth-2 schema in eight under the
+    # default configuration. The full product (119 k units, measured at 1.4-2.6 CPU-seconds each) is 4-5 hours on 16 cores
+    # and was never completed; this slice is what a run finishes.
+    if tier == "quick":
+        out = [("total", d, c, "quick") for d in _schemas(tier) for c in CONFIGS]
+    else:
+        out = []
+        for d in _schemas(tier):
+            if space.depth(d) <= 1:
+                out += [("total", d, c, "thorough" if c == "default" else "quick") for c in CONFIGS]
+            elif sum(map(ord, space.show(d))) % 8 == 0:
+                out.append(("total", d, "default", "quick"))
     out += [("hist", variant) for variant in ("plain", "mixin", "all_refs")]
     # a user-supplied Context shared by a sequence of build_json_schema calls with per-call overrides
     out += [("hist", "context:" + c) for c in CFam.CONTEXTS]
